@@ -14,6 +14,8 @@
  *   NDIMS id | DEFDIM id | DEFVAR id | PUTATT id | ENDDEF id | REDEF id | SYNC id | IPUT id |
  *   ATTACH id | DETACH id | INQPATH id                                             -> err [value]
  *   SETUP id                dims x(2048) t(unlimited) s(8), vars fx[x] rc[t][x] sm[s] rs[t][s] m2[s][s] (NC_INT), tx[s] (NC_CHAR)   -> err
+ *   MREQ id IGET|IPUT|BPUT  pending varm request: transposed imap + non-contiguous derived buftype (see mreq())           -> err
+ *   WAITID id | CANCELID id (the last MREQ request) -> err status;  CANCELGET | CANCELPUT | CANCELALL id                -> err
  *   ZREQ id <form>          one zero-length or argument-error request in the given API form (see zreq())          -> z err
  *   IOP id IPUT|BPUT|IGET fx|rc|sm|rs   post a nonblocking request; the harness keeps the user buffer     -> err
  *   CLOSE / ABORT / WAITALL append ` bufs=ok` / ` bufs=CHANGED(n)` when put buffers of that id were kept:
@@ -222,6 +224,29 @@ static int iop(int id, const char *kind, const char *var) {
     return err;
 }
 
+/* MREQ id IGET|IPUT|BPUT: a pending request in the form varm + transposed imap + NON-contiguous derived buftype (flexible API,
+   MPI_Type_vector), 4 elements of m2: the library keeps an imaptype AND a private MPI_Type_dup of the buftype until the request
+   is completed or cancelled.  The id of the last such request per file is remembered for WAITID / CANCELID. */
+static int lastreq[NC_MAX_NFILES];
+static int mreq(int id, const char *kind) {
+    int m2, err, req = NC_REQ_NULL, i, *buf, *copy;
+    MPI_Offset s0[2] = {1, 2}, c22[2] = {2, 2}, imT[2] = {1, 2};
+    MPI_Datatype vec;
+    if ((err = ncmpi_inq_varid(id, "m2", &m2)) != NC_NOERR) return err;
+    buf = (int *)malloc(8 * sizeof(int)); copy = (int *)malloc(8 * sizeof(int));
+    for (i = 0; i < 8; i++) buf[i] = 0x0a0b0c0d + i + counter;
+    counter++;
+    memcpy(copy, buf, 8 * sizeof(int));
+    MPI_Type_vector(4, 1, 2, MPI_INT, &vec); MPI_Type_commit(&vec);
+    if (!strcmp(kind, "IGET")) err = ncmpi_iget_varm(id, m2, s0, c22, NULL, imT, buf, 1, vec, &req);
+    else if (!strcmp(kind, "IPUT")) err = ncmpi_iput_varm(id, m2, s0, c22, NULL, imT, buf, 1, vec, &req);
+    else err = ncmpi_bput_varm(id, m2, s0, c22, NULL, imT, buf, 1, vec, &req);
+    MPI_Type_free(&vec);            /* the caller may free its datatype right after posting */
+    if (err == NC_NOERR) { track(id, kind[1] != 'G', buf, copy, 8); if (id >= 0 && id < NC_MAX_NFILES) lastreq[id] = req; }
+    else { free(buf); free(copy); }
+    return err;
+}
+
 /* one API call on ncid `id`; prints "err [value]" into out */
 static void do_call(int id, const char *kind, char *out, size_t outsz) {
     int err, n = -1;
@@ -249,6 +274,14 @@ static void do_call(int id, const char *kind, char *out, size_t outsz) {
     else if (!strcmp(kind, "INQFORMAT")) { err = ncmpi_inq_format(id, &n); snprintf(out, outsz, "%d %d", err, err ? -1 : n); }
     else if (!strcmp(kind, "INQATT")) { nc_type t; MPI_Offset l; err = ncmpi_inq_att(id, NC_GLOBAL, "a0", &t, &l); snprintf(out, outsz, "%d", err); }
     else if (!strcmp(kind, "GETVAR")) { int v = 0; err = ncmpi_get_var_int_all(id, 0, &v); snprintf(out, outsz, "%d", err); }
+    else if (!strcmp(kind, "WAITID") || !strcmp(kind, "CANCELID")) {
+        int st = 0, rq = (id >= 0 && id < NC_MAX_NFILES) ? lastreq[id] : NC_REQ_NULL;
+        err = kind[0] == 'W' ? ncmpi_wait_all(id, 1, &rq, &st) : ncmpi_cancel(id, 1, &rq, &st);
+        snprintf(out, outsz, "%d %d", err, st);
+    }
+    else if (!strcmp(kind, "CANCELGET")) { err = ncmpi_cancel(id, NC_GET_REQ_ALL, NULL, NULL); snprintf(out, outsz, "%d", err); }
+    else if (!strcmp(kind, "CANCELPUT")) { err = ncmpi_cancel(id, NC_PUT_REQ_ALL, NULL, NULL); snprintf(out, outsz, "%d", err); }
+    else if (!strcmp(kind, "CANCELALL")) { err = ncmpi_cancel(id, NC_REQ_ALL, NULL, NULL); snprintf(out, outsz, "%d", err); if (err == NC_NOERR) bufs_suffix(id, out, outsz); }
     else if (!strcmp(kind, "WAITALL")) { err = ncmpi_wait_all(id, NC_REQ_ALL, NULL, NULL); snprintf(out, outsz, "%d", err); if (err == NC_NOERR) bufs_suffix(id, out, outsz); }
     else if (!strcmp(kind, "BEGININDEP")) { err = ncmpi_begin_indep_data(id); snprintf(out, outsz, "%d", err); }
     else snprintf(out, outsz, "bad-kind");
@@ -351,6 +384,8 @@ int main(int argc, char **argv) {
                 printf("%s%d:%d", i ? " " : "", err, err ? -1 : id);
             }
             printf("\n");
+        } else if (!strcmp(tok[0], "MREQ") && ntok == 3) {
+            printf("%d\n", mreq(atoi(tok[1]), tok[2]));
         } else if (!strcmp(tok[0], "ZREQ") && ntok == 3) {
             printf("z %d\n", zreq(atoi(tok[1]), tok[2]));
         } else if (!strcmp(tok[0], "IOP") && ntok == 4) {
